@@ -792,7 +792,20 @@ func (h *tbHist) betweenHands(inHand bool) {
 			if h.r.Intn(4) == 0 {
 				ante = bb / 10
 			}
-			h.opBlind(lv, ante, 0, bb/2, bb)
+			cur := h.table().State.BlindState
+			switch {
+			case cur != nil && cur.Level == -1:
+				h.opBlind(lv, ante, 0, bb/2, bb) // the break is over
+			case h.r.Intn(4) == 0:
+				// a break begins (between hands or during one): level -1, amounts 0 (set) or -1 (unset)
+				if h.r.Intn(2) == 0 {
+					h.opBlind(-1, 0, 0, 0, 0)
+				} else {
+					h.opBlind(-1, -1, -1, -1, -1)
+				}
+			default:
+				h.opBlind(lv, ante, 0, bb/2, bb)
+			}
 		case x < 88:
 			h.malformed(inHand)
 		case x < 90: // lifecycle calls: pause, close, release (later opens must be refused; the hand in progress is settled)
